@@ -5,6 +5,7 @@
 #include <config.h>
 #include <algorithm>
 #include <array>
+#include <cmath>
 #include <complex>
 #include <cstdint>
 #include <cstdio>
@@ -72,6 +73,10 @@ template<class I> struct CInt { typedef I T; static constexpr int nf = 1; static
 template<class F> struct CFloat { typedef F T; static constexpr int nf = 1; static constexpr int kind = 1;
   static T make(const Elem& e) { return (F) toll(e[0]); }
   static Elem fields(const T& t) { long long v = (long long) t; if ((F) v == t) return { std::to_string(v) }; return { "nonint" }; } };
+// exactly rescaled floating-point values: token v stands for v * 2^K (huge, tiny, denormal): every sum/min/max of the unscaled run rescales exactly
+template<class F, int K> struct CScaled { typedef F T; static constexpr int nf = 1; static constexpr int kind = 14;
+  static T make(const Elem& e) { return std::ldexp((F) toll(e[0]), K); }
+  static Elem fields(const T& t) { F u = std::ldexp(t, -K); long long v = (long long) u; if ((F) v == u) return { std::to_string(v) }; return { "nonint" }; } };
 template<class F, class U> struct CBits { typedef F T; static constexpr int nf = 1; static constexpr int kind = 2;   // value token = bit pattern
   static T make(const Elem& e) { U u = (U) toull(e[0]); F f; std::memcpy(&f, &u, sizeof f); return f; }
   static Elem fields(const T& t) { U u; std::memcpy(&u, &t, sizeof u); return { std::to_string((unsigned long long) u) }; } };
@@ -129,6 +134,11 @@ template<class F> static bool dispatch(const std::string& ty, F&& f)
   if (ty == "float") { f(Tag<CFloat<float>>()); return true; }
   if (ty == "double") { f(Tag<CFloat<double>>()); return true; }
   if (ty == "ldouble") { f(Tag<CFloat<long double>>()); return true; }
+  if (ty == "d_hi") { f(Tag<CScaled<double, 300>>()); return true; }
+  if (ty == "d_lo") { f(Tag<CScaled<double, -300>>()); return true; }
+  if (ty == "d_den") { f(Tag<CScaled<double, -1074>>()); return true; }
+  if (ty == "f_hi") { f(Tag<CScaled<float, 100>>()); return true; }
+  if (ty == "f_den") { f(Tag<CScaled<float, -149>>()); return true; }
   if (ty == "dbits") { f(Tag<CBits<double, std::uint64_t>>()); return true; }
   if (ty == "fbits") { f(Tag<CBits<float, std::uint32_t>>()); return true; }
   if (ty == "cdouble") { f(Tag<CComplex>()); return true; }
@@ -163,10 +173,14 @@ static const char* ALLTYPES[] = { "int", "long", "uchar", "char", "short", "ulon
   "pr_li", "pr_il", "pr_pc", "pr_cp", "pr_ed", "pr_n", "big16", "big17", "big55", "fv_d2", "fv_l5",
   "uint", "ushort", "cfloat", "cldouble" };
 
+static long g_case = 0;      // running case number: every second case uses containers whose capacity exceeds their size
 template<class C> static std::vector<typename C::T> make_buf(const std::string& s)
 {
-  std::vector<typename C::T> r; if (s == "_" || s.empty()) return r;
-  for (auto& e : split(s, ',')) r.push_back(C::make(split(e, ':')));
+  std::vector<typename C::T> r;
+  if (s == "_" || s.empty()) { if (g_case & 1) r.reserve(3); return r; }
+  auto es = split(s, ',');
+  if (g_case & 1) r.reserve(2 * es.size() + 5);
+  for (auto& e : es) r.push_back(C::make(split(e, ':')));
   return r;
 }
 template<class C, class It> static std::string show_range(It b, It e)
@@ -213,6 +227,9 @@ static std::string do_coll(Comm& cc, bool ismpi, const Case& c, int me)
   std::vector<int> lens = ints(c.t[9]), displs = ints(c.t[10]);
   auto ins = split(c.t[11], ';'), outs = split(c.t[12], ';');
   std::vector<T> in0 = make_buf<C>(ins.at(me)), out = make_buf<C>(outs.at(me));
+  // per-rank arguments that are significant at the root only: the other ranks pass DIFFERENT (garbage) count / displacement arrays
+  std::vector<int> glens = lens, gdispls = displs;
+  if (fn == "asym" && me != root) for (std::size_t i = 0; i < glens.size(); ++i) { glens[i] = (me & 1) ? 0 : lens[i] + 3 + (int) i + me; gdispls[i] = 1000 + 7 * (int) i; }
   const bool alias = fn == "alias";            // exact aliasing: in and out are the same storage
   std::vector<T>& in = alias ? out : in0;
   bool ok = true;
@@ -254,11 +271,11 @@ static std::string do_coll(Comm& cc, bool ismpi, const Case& c, int me)
   else if (op == "gather") cc.gather(in.data(), out.data(), len, root);
   else if (op == "igather1") { auto f = cc.igather(in[0], out, root); f.wait(); }
   else if (op == "igatherV") { if constexpr (std::is_same<Comm, Communication<MPI_Comm>>::value) { auto f = cc.igather(in, out, root); f.wait(); } else ok = false; }
-  else if (op == "gatherv") cc.gatherv(in.data(), lens.at(me), out.data(), lens.data(), displs.data(), root);
+  else if (op == "gatherv") cc.gatherv(in.data(), lens.at(me), out.data(), glens.data(), gdispls.data(), root);
   else if (op == "scatter") cc.scatter(in.data(), out.data(), len, root);
   else if (op == "iscatter1") { auto f = cc.iscatter(in, out[0], root); f.wait(); }
   else if (op == "iscatterV") { if constexpr (std::is_same<Comm, Communication<MPI_Comm>>::value) { auto f = cc.iscatter(in, out, root); f.wait(); } else ok = false; }
-  else if (op == "scatterv") cc.scatterv(in.data(), lens.data(), displs.data(), out.data(), lens.at(me), root);
+  else if (op == "scatterv") cc.scatterv(in.data(), glens.data(), gdispls.data(), out.data(), lens.at(me), root);
   else if (op == "allgather") cc.allgather(in.data(), len, out.data());
   else if (op == "iallgather1") { auto f = cc.iallgather(in[0], out); f.wait(); }
   else if (op == "iallgatherV") { if constexpr (std::is_same<Comm, Communication<MPI_Comm>>::value) { auto f = cc.iallgather(in, out); f.wait(); } else ok = false; }
@@ -296,6 +313,9 @@ static std::string do_p2p(Communication<MPI_Comm>& cc, const Case& c, int me)
   if (op == "isend_irecv") {
     if (me == 0) { auto f = cc.isend(std::move(sent), 1, tag); f.wait(); return "-"; }
     auto f = cc.irecv(std::move(pre), 0, tag); auto r = f.get(); return show_buf<C>(r); }
+  if (op == "isend_irecv_lv") {   // const lvalue send buffer (MPIFuture<const vector&>), lvalue receive buffer (MPIFuture<vector&>): data lands in the caller's object
+    if (me == 0) { const std::vector<T>& cs = sent; auto f = cc.isend(cs, 1, tag); f.wait(); return "-"; }
+    auto f = cc.irecv(pre, 0, tag); f.wait(); return show_buf<C>(pre); }
   if (op == "scalar") {   // single object through the default MPIData (size 1)
     if (me == 0) { cc.send(sent[0], 1, tag); return "-"; } cc.recv(pre[0], 0, tag); return show_buf<C>(pre); }
   if (op == "rrecv_str") {
@@ -373,7 +393,7 @@ static std::string do_pack(Communication<MPI_Comm>& cc, const Case& c)
     dispatch(it[1], [&](auto tag) { typedef typename decltype(tag)::Codec::T T;
       if (it[0] == "s") { alignas(T) unsigned char raw[sizeof(T)]; std::memset(raw, 0xA5, sizeof raw); T* t = (T*) raw; p >> *t; r += "/" + hexof(raw, sizeof raw); }
       else if constexpr (std::is_same<T,char>::value) { std::string s(prelen, 'z'); p >> s; r += "/" + hexof(s.data(), s.size()); }
-      else { std::vector<T> v(prelen); p >> v; r += "/" + masked<T>(v.data(), v.size()); } });
+      else { std::vector<T> v(prelen); if (prelen) std::memset((void*) v.data(), 0x5A, prelen * sizeof(T)); p >> v; r += "/" + masked<T>(v.data(), v.size()); } });
   }
   r += "/" + std::to_string(p.tell()) + "/" + (p.eof() ? "eof" : "noeof");
   return r;
@@ -389,12 +409,17 @@ static bool pk_op(MPIPack& p, const std::string& op, std::size_t prelen, std::st
 {
   auto it = split(op, '|');
   if (it[0] == "k") { p.seek(it[1] == "end" ? (int) p.size() : (int) toll(it[1])); r += "/K" + pk_state(p); return true; }
-  if (it[0] == "m") { MPIPack q(std::move(p)); MPIPack w(std::move(q)); p = std::move(w); r += "/Z" + pk_buf(p) + "," + pk_state(p); return true; }   // move ctor x2, move assignment
+  if (it[0] == "m") {   // move ctor x2, move assignment onto a pack that holds OTHER content and another cursor (twice)
+    Communication<MPI_Comm> ccp(MPI_COMM_WORLD);
+    MPIPack q(std::move(p)); MPIPack w(std::move(q)); MPIPack other(ccp, 5); other << 'j' << 'k'; other.seek(1);
+    p.seek(p.tell() + 3); other = std::move(w); p = std::move(other); r += "/Z" + pk_buf(p) + "," + pk_state(p); return true; }   // move ctor x2, move assignment
   if (it[0] == "q") {   // a pack as the payload of a pack:  p << inner   (inner holds the given raw bytes)
     Communication<MPI_Comm> ccp(MPI_COMM_WORLD); MPIPack inner(ccp); for (unsigned char b : unhex(it[1])) inner << (char) b;
     p << inner; r += "/B" + pk_buf(p) + "," + pk_state(p); return true; }
   if (it[0] == "u") {   // p >> inner
-    Communication<MPI_Comm> ccp(MPI_COMM_WORLD); MPIPack inner(ccp, 3); p >> inner; r += "/R" + pk_buf(inner) + "," + pk_state(p); return true; }
+    Communication<MPI_Comm> ccp(MPI_COMM_WORLD); MPIPack inner(ccp, 3);
+    if (it.size() >= 4) { for (unsigned char b : unhex(it[2])) inner << (char) b; inner.seek((int) toll(it[3])); }   // target already holds other bytes and a cursor
+    p >> inner; r += "/R" + pk_buf(inner) + "," + pk_state(p); return true; }
   if (it[0] == "z") { p.resize((std::size_t) toll(it[1])); r += "/Z" + pk_buf(p) + "," + pk_state(p); return true; }
   if (it[0] == "g") { p.enlarge((int) toll(it[1])); r += "/Z" + pk_buf(p) + "," + pk_state(p); return true; }
   if (it[0] == "s" || it[0] == "d") {
@@ -410,7 +435,7 @@ static bool pk_op(MPIPack& p, const std::string& op, std::size_t prelen, std::st
     bool ok = dispatch(it[2], [&](auto tag) { typedef typename decltype(tag)::Codec::T T;
       if (it[1] == "s") { alignas(T) unsigned char raw[sizeof(T)]; std::memset(raw, 0xA5, sizeof raw); T* t = (T*) raw; p >> *t; r += "/R" + hexof(raw, sizeof raw); }
       else if constexpr (std::is_same<T,char>::value) { std::string s(prelen, 'z'); p >> s; r += "/R" + hexof(s.data(), s.size()); }
-      else { std::vector<T> v(prelen); p >> v; r += "/R" + masked<T>(v.data(), v.size()); } });
+      else { std::vector<T> v(prelen); if (prelen) std::memset((void*) v.data(), 0x5A, prelen * sizeof(T)); p >> v; r += "/R" + masked<T>(v.data(), v.size()); } });
     r += "," + pk_state(p); return ok;
   }
   return false;
@@ -419,7 +444,7 @@ static std::string do_pks(Communication<MPI_Comm>& cc, const Case& c, int me)
 {
   std::size_t prelen = (std::size_t) toll(c.t[1]);
   std::size_t xi = c.t.size();
-  for (std::size_t i = 2; i < c.t.size(); ++i) if (c.t[i] == "x") xi = i;
+  for (std::size_t i = 2; i < c.t.size(); ++i) if (c.t[i] == "x" || c.t[i].rfind("x|", 0) == 0) xi = i;
   const int tag = 13;
   if (xi < c.t.size() && cc.size() < 2) return "UNSUPPORTED";
   std::string r;
@@ -434,7 +459,10 @@ static std::string do_pks(Communication<MPI_Comm>& cc, const Case& c, int me)
     return r.empty() ? "-" : r;
   }
   if (me == 1 && xi < c.t.size()) {
-    MPIPack p = cc.rrecv(MPIPack(cc), 0, tag);
+    // x: rrecv into a fresh pack;  x|<hex>|<pos>: into a pack that already holds other bytes with its cursor at pos
+    MPIPack tgt(cc);
+    { auto xf = split(c.t[xi], '|'); if (xf.size() >= 3) { for (unsigned char b : unhex(xf[1])) tgt << (char) b; tgt.seek((int) toll(xf[2])); } }
+    MPIPack p = cc.rrecv(std::move(tgt), 0, tag);
     r += "/X" + pk_buf(p) + "," + pk_state(p);
     for (std::size_t i = xi + 1; i < c.t.size(); ++i) if (!pk_op(p, c.t[i], prelen, r)) return "UNSUPPORTED";
     return r;
@@ -564,8 +592,10 @@ int main(int argc, char** argv)
   Communication<MPI_Comm> cdef;
   MPI_Comm dupc, revc; MPI_Comm_dup(MPI_COMM_WORLD, &dupc); MPI_Comm_split(MPI_COMM_WORLD, 0, -me, &revc);
   Communication<MPI_Comm> cdup(dupc), crev(revc), cself(nc);
-  Communication<MPI_Comm> ccopy(crev);          // copy of a Communication: must keep communicator, rank and size
+  Communication<MPI_Comm> ccopy(cdup);          // copy of a Communication, then copy-ASSIGNED from one with another communicator and rank:
+  ccopy = crev;                                 // must take over communicator, rank and size
   while (std::getline(f, line)) {
+    ++g_case;
     Case c; { std::istringstream is(line); std::string t; while (is >> t) c.t.push_back(t); }
     std::string kind = "@world";
     if (!c.t.empty() && c.t[0][0] == '@') { kind = c.t[0]; c.t.erase(c.t.begin()); }
